@@ -130,9 +130,10 @@ CHECKS["C02"] = {
     "assumptions": ["the CID of an envelope identifies it (content hash)", "newer announcements of an already registered device are outside the statement and not generated"],
     "units": [
         {"pkg": _SS, "run": "^TestVerif_C02_", Q: {"timeout": 600}, T: {"timeout": 3400, "shards": 16}},
+        {"pkg": _SS, "run": "^TestVerifCtl_C02_", "inst": ["pkg/secretstore/secret_store_messages.go"], Q: {"timeout": 600}, T: {"timeout": 3400, "shards": 8}},
     ],
     "mandatory_labels": {"all": ["tree/edge-attempt", "tree/duplicate", "tree/out-of-order-success", "random/edge-attempt", "random/duplicate",
-                                 "random/out-of-order-success", "random/re-registration", "random/two-senders", "random/push-before-store"]},
+                                 "random/out-of-order-success", "random/re-registration", "random/two-senders", "random/push-before-store", "concurrent/dfs-schedules", "concurrent/contended-lock"]},
 }
 
 CHECKS["C09"] = {
@@ -397,6 +398,9 @@ _ADDED = {
 }
 for _k, _v in _ADDED.items():
     CHECKS[_k]["level_text"] += ". " + _v
+_ADDED2 = {"C02": "Concurrent half: controlled schedules (DFS + rapid) of overlapping opens (with duplicates) and registration / re-delivery on an instrumented secret store; afterwards everything sealed after the registered counter opens in order."}
+CHECKS["C02"]["level_text"] += ". " + _ADDED2["C02"]
+CHECKS["C02"]["technique"] += "; generated-schedule exploration for overlapping arrivals"
 CHECKS["C05"]["technique"] += "; generated-schedule exploration for overlapping announcements"
 CHECKS["C11"]["technique"] += "; generated-schedule exploration for overlapping first uses"
 CHECKS["C14"]["technique"] += "; generated-schedule exploration for push/log races"
